@@ -64,6 +64,7 @@ func TestCheck(t *testing.T) {
 			cancelCase(ctx, rep, rng, cfg, spec)
 		}
 		sameKeyCase(ctx, rep, rng)
+		toolFaultCase(ctx, rep, rng.Sub("tool"))
 	})
 }
 
